@@ -260,6 +260,8 @@ func c06Replay(i int, raw json.RawMessage) Result {
 	}
 	if c06Set == nil {
 		c06Init()
+		// the embedded struct types are rendered on their own before any value that embeds them
+		c06Render("{{ .Name }}{{ isset(.Name) }}", "inner")
 	}
 	if i%499 == 0 {
 		if r := c06AfterEarlier(); r != nil {
